@@ -1,4 +1,5 @@
 import ExaModel.Lemmas.TimerSched
+import ExaModel.Lemmas.TimerPy
 set_option linter.unusedSimpArgs false
 set_option linter.unusedVariables false
 /-!
@@ -29,6 +30,13 @@ What is proved here is the arithmetic, for every schedule and every H.  That `_m
 round every `δ` (it blocks in `sock_sendall` under back-pressure), the OPENCONFIRM phase
 (`_read_ka` has no timer — finding F18) and the wall clock being monotone are runtime matters,
 covered by the session rig (part b), not by these theorems.
+
+Tie to the source at proof level (not only by sampled correspondence): `Generated/PyTimer.lean` is
+`exabgp/bgp/timer.py` (`check_ka_timer`, `check_ka`, `need_ka`) translated statement by statement
+on every run by `harness/pylite.py`; `timer_py_*` below prove, for every state, message kind and
+clock value, that the translated methods compute exactly what the model's `Recv.checkKaTimer`,
+`Recv.checkKa`, `Send.needKa` compute.  Editing a comparison, an operand or the order of the
+statements in timer.py therefore breaks one of these obligations directly.
 -/
 namespace Exa.Props.C12
 open Exa Exa.Timer Exa.Generated
@@ -46,6 +54,51 @@ theorem timer_table_spec :
     TimerTable.kinds.map (fun r => (r.2.1, r.2.2 == 0)) =
       [(252, false), (254, false), (253, false), (1, true), (2, true), (3, true), (4, true), (5, true), (6, true)] := by
   decide
+
+/-- **The model is the code** (1/3): `ReceiveTimer.check_ka_timer`, translated from /repo on this run,
+    equals the model's `Recv.checkKaTimer` on every input. -/
+theorem timer_py_check_ka_timer (r : Recv) (nowMs : Nat) (k : Kind) :
+    PyTimer.ReceiveTimer.check_ka_timer r.toPy k.type k.sched (secs nowMs) = liftRecvTimer (r.checkKaTimer nowMs k) :=
+  py_check_ka_timer_eq_model r nowMs k
+
+/-- **The model is the code** (2/3): `ReceiveTimer.check_ka` = `Recv.checkKa`. -/
+theorem timer_py_check_ka (r : Recv) (nowMs : Nat) (k : Kind) :
+    PyTimer.ReceiveTimer.check_ka r.toPy k.type k.sched (secs nowMs) = liftRecvKa (r.checkKa nowMs k) :=
+  py_check_ka_eq_model r nowMs k
+
+/-- **The model is the code** (3/3): `SendTimer.need_ka` = `Send.needKa`. -/
+theorem timer_py_need_ka (s : Send) (nowMs : Nat) :
+    PyTimer.SendTimer.need_ka s.toPy (secs nowMs) = liftSend (s.needKa nowMs) :=
+  py_need_ka_eq_model s nowMs
+
+/-- ... so the one-step facts hold of the translated code itself: `check_ka_timer` raises exactly
+    `Notify(self.code, self.subcode)`, only with a hold time other than 0, and only when strictly
+    more than `holdtime` whole seconds separate the clock from `last_read` — which a real message
+    handed in at this very call has just reset (so such a call never raises).  `hpos`: a hold time is
+    an unsigned 16-bit field. -/
+theorem py_raise_only_after_hold (st : PyTimer.ReceiveTimerSt) (ty sched now c sb : Int) (hpos : 0 ≤ st.holdtime)
+    (h : PyTimer.ReceiveTimer.check_ka_timer st ty sched now = .raise c sb) :
+    st.holdtime ≠ 0 ∧ c = st.code ∧ sb = st.subcode ∧ sched ≠ 0 ∧ now - st.last_read > st.holdtime := by
+  unfold PyTimer.ReceiveTimer.check_ka_timer at h
+  simp only [] at h
+  split at h
+  · simp at h
+  · rename_i h0
+    split at h
+    · -- a real message: last_read := now, elapsed = 0
+      rename_i hs
+      split at h
+      · rename_i he
+        simp at he h0 hs
+        omega
+      · split at h <;> simp at h
+    · rename_i hs
+      split at h
+      · rename_i he
+        simp at he h0 hs
+        simp at h
+        exact ⟨h0, h.1.symm, h.2.symm, hs, by omega⟩
+      · split at h <;> simp at h
 
 /-- **Never closed early.** For every H > 0 and every schedule: if the session ended, it ended at
     a poll that carried no real message, with NOTIFICATION 4/0, and strictly more than `H·1000` ms
